@@ -257,7 +257,7 @@ def r2(ctx):
             same_sample = lambda t_: t_.endswith(f".sample_names=={sv}") or (t_.startswith(f"{sv}==") and t_.endswith(".sample_names"))
             ok = same_sample(rows) and (f".sample_names=={sv}]" in pt or (f"[{sv}==" in pt and ".sample_names]" in pt)) and ".plate_names[" in pt and pt.startswith("np.unique(")
             size = arg(val, 1, "size")
-            ok = ok and size is not None and U(inline(size, lenv)).replace(" ", "") == f"({rows}).sum()"
+            ok = ok and size is not None and U(inline(size, lenv)).replace(" ", "") in (f"({rows}).sum()", f"np.sum({rows})", f"np.count_nonzero({rows})")
     ctx.check("R2", f"{f.site()}::single-agent-rows-same-sample", ok,
               "single-agent rows of a sample are assigned among the generated plates of that same sample, one label per row",
               "single-agent rows are not assigned among plate names filtered by their own sample")
